@@ -3,12 +3,13 @@ CONSTANTS
   LongLen = 5
   Layouts <- MCLayouts
   BaseLens = {0, 1, 4, 5, 6, 9}
-  Wipes = {}
+  Wipes = {119}
   Variants = {"asis", "fixed"}
   Cuts = FALSE
   SectorSize = 32
   MaxFaults = 1
   MaxRetry = 1
+  Session = TRUE
   Kinds = {"T2"}
   Sizes = {1, 3}
   Pads = {0, 1, 2}
